@@ -27,6 +27,17 @@ impl Binder {
                         .cloned()
                         .ok_or_else(|| ErrorKind::InvalidSQL.with_spanned(&v))
                 } else {
+                    let supported = match &v {
+                        Value::Number(n, _) => n.parse::<Decimal>().is_ok(),
+                        Value::SingleQuotedString(_)
+                        | Value::DoubleQuotedString(_)
+                        | Value::Boolean(_)
+                        | Value::Null => true,
+                        _ => false,
+                    };
+                    if !supported {
+                        return Err(ErrorKind::Todo(format!("value {v}")).with_spanned(&v));
+                    }
                     Ok(self.egraph.add(Node::Constant(v.into())))
                 }
             }
@@ -83,7 +94,7 @@ impl Binder {
             } => self.bind_in_subquery(*expr, *subquery, negated),
             Expr::Exists { subquery, negated } => self.bind_exists(*subquery, negated),
             Expr::Subquery(query) => self.bind_subquery(*query),
-            _ => todo!("bind expression: {:?}", expr),
+            expr => Err(ErrorKind::Todo(format!("expression {expr}")).into()),
         }?;
         self.type_(id)?;
         Ok(id)
@@ -146,9 +157,9 @@ impl Binder {
             Custom(name) => match name.as_str() {
                 "<->" => Node::VectorL2Distance([l, r]),
                 "<#>" => Node::VectorNegtiveInnerProduct([l, r]),
-                op => todo!("bind custom binary op: {:?}", op),
+                op => return Err(ErrorKind::Todo(format!("binary operator {op}")).into()),
             },
-            _ => todo!("bind binary op: {:?}", op),
+            op => return Err(ErrorKind::Todo(format!("binary operator {op}")).into()),
         };
         Ok(self.egraph.add(node))
     }
@@ -160,7 +171,7 @@ impl Binder {
             Plus => expr,
             Minus => self.egraph.add(Node::Neg(expr)),
             Not => self.egraph.add(Node::Not(expr)),
-            _ => todo!("bind unary operator: {:?}", op),
+            op => return Err(ErrorKind::Todo(format!("unary operator {op}")).into()),
         })
     }
 
@@ -204,7 +215,7 @@ impl Binder {
                     .egraph
                     .add(Node::Constant(DataValue::Timestamp(timestamp))))
             }
-            t => todo!("support typed string: {:?}", t),
+            t => Err(ErrorKind::Todo(format!("typed string {t}")).into()),
         }
     }
 
@@ -236,14 +247,23 @@ impl Binder {
     fn bind_interval(&mut self, interval: parser::Interval) -> Result {
         let Expr::Value(Value::Number(v, _) | Value::SingleQuotedString(v)) = *interval.value
         else {
-            panic!("interval value must be number or string");
+            return Err(ErrorKind::InvalidExpression(
+                "interval value must be number or string".into(),
+            )
+            .into());
         };
-        let num = v.parse().expect("interval value is not a number");
+        let num = v.parse().map_err(|_| {
+            ErrorKind::InvalidExpression("interval value is not a number".into())
+        })?;
         let value = DataValue::Interval(match interval.leading_field {
             Some(DateTimeField::Day) => Interval::from_days(num),
             Some(DateTimeField::Month) => Interval::from_months(num),
             Some(DateTimeField::Year) => Interval::from_years(num),
-            f => todo!("Support interval with leading field: {f:?}"),
+            f => {
+                return Err(
+                    ErrorKind::Todo(format!("interval with leading field {f:?}")).into(),
+                );
+            }
         });
         Ok(self.egraph.add(Node::Constant(value)))
     }
@@ -360,8 +380,9 @@ impl Binder {
                     args.clear();
                     break;
                 }
-                FunctionArgExpr::QualifiedWildcard(_) => {
-                    todo!("support qualified wildcard")
+                FunctionArgExpr::QualifiedWildcard(name) => {
+                    return Err(ErrorKind::Todo("qualified wildcard argument".into())
+                        .with_spanned(name));
                 }
             }
         }
@@ -433,7 +454,33 @@ impl Binder {
             return Ok(bind_result);
         }
 
-        let node = match func.name.to_string().to_lowercase().as_str() {
+        let name = func.name.to_string().to_lowercase();
+        // check the number of arguments
+        let expected_args = match name.as_str() {
+            "count" if args.is_empty() => Some(0),
+            "count" | "max" | "min" | "sum" | "avg" | "first" | "last" => Some(1),
+            "replace" => Some(3),
+            "repeat" => Some(2),
+            "row_number" => Some(0),
+            _ => None,
+        };
+        match expected_args {
+            Some(n) if n != args.len() => {
+                return Err(ErrorKind::BindFunctionError(format!(
+                    "function {name} takes {n} argument(s), but {} given",
+                    args.len()
+                ))
+                .with_spanned(&func.name));
+            }
+            Some(_) => {}
+            None => {
+                return Err(
+                    ErrorKind::BindFunctionError(format!("unsupported function: {name}"))
+                        .with_spanned(&func.name),
+                );
+            }
+        }
+        let node = match name.as_str() {
             "count" if args.is_empty() => Node::RowCount,
             "count" if distinct => Node::CountDistinct(args[0]),
             "count" => Node::Count(args[0]),
@@ -450,7 +497,7 @@ impl Binder {
             "replace" => Node::Replace([args[0], args[1], args[2]]),
             "repeat" => Node::Repeat([args[0], args[1]]),
             "row_number" => Node::RowNumber,
-            name => todo!("Unsupported function: {}", name),
+            name => unreachable!("unsupported function: {name}"),
         };
         let mut id = self.egraph.add(node);
         if let Some(window) = func.over {
@@ -475,7 +522,7 @@ impl Binder {
         let partitionby = self.bind_exprs(window.partition_by)?;
         let orderby = self.bind_orderby(window.order_by)?;
         if window.window_frame.is_some() {
-            todo!("support window frame");
+            return Err(ErrorKind::Todo("window frame".into()).with_spanned(name));
         }
         Ok(self.egraph.add(Node::Over([func, partitionby, orderby])))
     }
